@@ -50,6 +50,7 @@ type FnSpec struct {
 	File      string    `json:"file"` // relative to the repository root
 	Name      string    `json:"name"` // gen_<name>
 	Args      []ArgSpec `json:"args"`
+	StopAt    string    `json:"stop_at"`    // translate only the prefix before the first statement whose source contains this text; result: option (None = the prefix falls through)
 	OpaqueErr string    `json:"opaque_err"` // Gallina term for an error that wraps no sentinel ("" = untranslatable)
 	Theorems  []string  `json:"theorems"`
 	Cex       json.RawMessage `json:"cex"`
@@ -71,6 +72,9 @@ type PropSpec struct {
 	FieldGet   map[string]SymSpec       `json:"field_get"`
 	Conv       map[string]string        `json:"conv"`      // "<from>><to>" -> template {0}
 	ErrorsAs   map[string]string        `json:"errors_as"` // kind of the target -> template {0} : option <kind>
+	ErrorsIs   string                   `json:"errors_is"` // template {0} {1} : bool
+	GoTypes    map[string]string        `json:"go_types"`  // normalised Go type -> kind
+	Lists      map[string]string        `json:"lists"`     // list kind -> element kind
 }
 
 type Spec struct {
@@ -229,6 +233,8 @@ Definition gen_i64 (x : N) : Z := gen_wrapi64 (Z.of_N x).
 (* integer division: None = run-time panic "integer divide by zero" *)
 Definition gen_div64 (a b : Z) : option Z := if (b =? 0)%Z then None else Some (gen_wrapi64 (Z.quot a b)).
 Definition gen_divu64 (a b : N) : option N := if b =? 0 then None else Some (a / b).
+(* make([]T, 0, c): None = run-time panic "makeslice: cap out of range" above the limit m *)
+Definition gen_capok (m c : N) : option unit := if m <? c then None else Some tt.
 (* time.Time.Compare *)
 Definition gen_cmp (a b : Z) : Z := if (a <? b)%Z then (-1)%Z else if (b <? a)%Z then 1%Z else 0%Z.
 (* outcome of a function that may panic or run a fuel-bounded loop *)
